@@ -17,6 +17,7 @@ mod lattice;
 mod lru;
 mod order;
 mod poly;
+mod sdd;
 mod table;
 mod vtree;
 
@@ -36,6 +37,7 @@ pub fn run_case(c: &Value) -> CaseResult {
         "dtree_cnf" => dtree::run(c),
         "vtree_mgr" => vtree::run(c),
         "hasher_hist" => hasher::run(c),
+        "sdd_prog" => sdd::run(c),
         "lat_eu" | "lat_real" | "lat_bool" | "lat_rational" => lattice::run(c),
         "compile_expr" | "compile_cnf" | "compile_sdd" => compile::run(c),
         _ => Err(format!("unknown case kind {kind}")),
@@ -92,6 +94,7 @@ fn main() {
                 "dtree" => dtree::candidates(seed),
                 "vtree" => vtree::candidates(seed),
                 "hasher" => hasher::candidates(seed),
+                "sdd" => sdd::candidates(seed),
                 "lattice" => lattice::candidates(seed),
                 "compile" => compile::candidates(seed),
                 _ => vec![],
